@@ -155,3 +155,61 @@ Example default_top : pat_of [Fld "mother"; Lit " -> "; Fld "daughters"] = fst d
 Proof. split; reflexivity. Qed.
 Example default_sub : pat_of [Lit "("; Fld "mother"; Lit " -> "; Fld "daughters"; Lit ")"] = snd default_cfg.
 Proof. reflexivity. Qed.
+
+(* ------------------------------------------------------------------ rendering of structural patterns *)
+Fixpoint fill (l : list item) (m d : string) : string :=
+  match l with
+  | [] => ""
+  | Lit t :: r => t ++ fill r m d
+  | Fld n :: r => (if String.eqb n "mother" then m else d) ++ fill r m d
+  end.
+
+Lemma app_str_nil (a : string) : a ++ "" = a.
+Proof. induction a; simpl; congruence. Qed.
+
+Lemma rend_lit t : forall rest m d out,
+  rend RLit (esc_braces t ++ rest) m d out = rend RLit rest m d (out ++ t).
+Proof.
+  induction t as [|c r IH]; intros rest m d out; simpl; [rewrite app_str_nil; reflexivity|].
+  destruct (is c "{") eqn:E1.
+  - simpl. rewrite ?E1. rewrite IH. rewrite app_str_assoc.
+    assert (c = "{"%char) by (apply Ascii.eqb_eq; exact E1). subst. reflexivity.
+  - destruct (is c "}") eqn:E2; simpl; rewrite ?E1, ?E2.
+    + rewrite IH. rewrite app_str_assoc.
+      assert (c = "}"%char) by (apply Ascii.eqb_eq; exact E2). subst. reflexivity.
+    + rewrite IH. rewrite app_str_assoc. reflexivity.
+Qed.
+
+Lemma rend_name n : forall acc rest m d out,
+  name_ok n = true ->
+  rend (RName acc) (n ++ String "}" rest) m d out =
+  let nm := str_of_rev (rev (list_ascii_of_string n) ++ acc)%list in
+  if String.eqb nm "mother" then rend RLit rest m d (out ++ m)
+  else if String.eqb nm "daughters" then rend RLit rest m d (out ++ d) else None.
+Proof.
+  induction n as [|c r IH]; intros acc rest m d out Hn; simpl.
+  - reflexivity.
+  - simpl in Hn. apply andb_true_iff in Hn. destruct Hn as [Hc Hr].
+    apply negb_true_iff in Hc. destruct (special_false _ Hc) as (A & B & C & D & E & F).
+    rewrite B, A, C, E, F. simpl. rewrite IH by assumption. simpl. rewrite <- app_assoc. reflexivity.
+Qed.
+
+Theorem render_fill l m d : items_ok l = true ->
+  (forall n, In n (names l) -> n = "mother" \/ n = "daughters") ->
+  render (pat_of l) m d = Some (fill l m d).
+Proof.
+  unfold render.
+  assert (G : forall out, items_ok l = true ->
+            (forall n, In n (names l) -> n = "mother" \/ n = "daughters") ->
+            rend RLit (pat_of l) m d out = Some (out ++ fill l m d)).
+  { induction l as [|[t|n] r IH]; intros out Hok Hn.
+    - simpl. rewrite app_str_nil. reflexivity.
+    - simpl. rewrite rend_lit. rewrite IH by assumption. rewrite app_str_assoc. reflexivity.
+    - simpl in Hok. apply andb_true_iff in Hok. destruct Hok as [Hnm Hr].
+      assert (Hn' : forall x, In x (names r) -> x = "mother" \/ x = "daughters") by (intros x Hx; apply Hn; right; exact Hx).
+      change (pat_of (Fld n :: r)) with ("{" ++ n ++ String "}" (pat_of r)).
+      destruct (Hn n (or_introl eq_refl)) as [-> | ->].
+      + simpl. rewrite IH by assumption. rewrite app_str_assoc. reflexivity.
+      + simpl. rewrite IH by assumption. rewrite app_str_assoc. reflexivity. }
+  intros H1 H2. rewrite G by assumption. reflexivity.
+Qed.
